@@ -18,6 +18,9 @@ pub struct Case {
     pub layout: u32, // 0 Gray, 1 GrayA, 2 RGB, 3 RGBA, 4 RGB+depth+alpha, 5 RGB + alpha + alpha2
     pub depth: u32,  // 5, 8, 12, 16, 32 (= f32)
     pub orientation: u32,
+    /// 0: samples within the nominal range; 2: some samples outside it (negative and above the maximum),
+    /// which integer outputs must clamp (16-bit buffers are declared for depths <= 12 either way)
+    pub range: u32,
 }
 
 pub struct Built {
@@ -64,7 +67,21 @@ pub fn build(c: &Case) -> Built {
             Channel::from_fn(c.w, c.h, |x, y| (((ci * 17 + y * c.w + x) % 61) as f32 / 64.0).to_bits() as i32)
         } else {
             let maxv = (1i64 << b) - 1;
-            Channel::from_fn(c.w, c.h, |x, y| (((ci as i64 * 7 + (y * c.w + x) as i64 * 5 + 1) * 9973) % (maxv + 1)) as i32)
+            Channel::from_fn(c.w, c.h, |x, y| {
+                let k = (y * c.w + x) as i64;
+                let v = ((ci as i64 * 7 + k * 5 + 1) * 9973) % (maxv + 1);
+                (if c.range == 2 && b <= 12 {
+                    // every third sample leaves the nominal range: just above, far above, just below
+                    match (k + ci as i64) % 6 {
+                        0 => maxv + 1 + k % 5,
+                        2 => 2 * maxv - k,
+                        4 => -1 - k % 7,
+                        _ => v,
+                    }
+                } else {
+                    v
+                }) as i32
+            })
         };
         truth.push(if b == 32 { ch.data.iter().map(|&v| f32::from_bits(v as u32) as f64).collect() } else { ch.data.iter().map(|&v| v as f64 / ((1i64 << b) - 1) as f64).collect() });
         ints.push(ch.data.clone());
@@ -238,7 +255,9 @@ pub fn run(c: &Case) -> Result<u64, (String, String)> {
                         let (x, y) = (px % rw, px / rw);
                         let (sx, sy) = to_stored(c.orientation, l + x, t + y, sw, sh);
                         let iv = b.ints[ch][sy * sw + sx];
-                        if b.bits[ch] == 8 && o8[i] as i32 != iv {
+                        let iv8 = iv.clamp(0, 255);
+                        let iv = iv.clamp(0, 65535);
+                        if b.bits[ch] == 8 && o8[i] as i32 != iv8 {
                             return Err(("stream-u8-exact".into(), format!("{tag}: 8-bit sample {iv} came out as {}", o8[i])));
                         }
                         if b.bits[ch] == 16 && o16[i] as i32 != iv {
@@ -276,7 +295,19 @@ pub fn cases(quick: bool) -> Vec<Case> {
                     if quick && w * h > 6 && !(depth == 8 || depth == 16) && layout != 4 {
                         continue;
                     }
-                    out.push(Case { w, h, layout, depth, orientation: o });
+                    out.push(Case { w, h, layout, depth, orientation: o, range: 0 });
+                }
+            }
+        }
+    }
+    // 16-bit buffers, and out-of-range samples that every integer output has to clamp
+    for &(w, h) in &[(2usize, 2usize), (4, 3)] {
+        for layout in 0..6u32 {
+            for depth in [5u32, 8, 12] {
+                for o in [1u32, 6] {
+                    for range in [2u32] {
+                        out.push(Case { w, h, layout, depth, orientation: o, range });
+                    }
                 }
             }
         }
@@ -304,7 +335,7 @@ pub fn main(args: &crate::Args) {
             }
             Err((k, w)) => {
                 rep.outcome("bad");
-                rep.violation(k, &format!("{w} [{:?}]", c), &json!({"w": c.w, "h": c.h, "layout": c.layout, "depth": c.depth, "orientation": c.orientation, "stream_hex": hex(&build(c).bytes)}));
+                rep.violation(k, &format!("{w} [{:?}]", c), &json!({"w": c.w, "h": c.h, "layout": c.layout, "depth": c.depth, "orientation": c.orientation, "range": c.range, "stream_hex": hex(&build(c).bytes)}));
             }
         }
     }
@@ -358,7 +389,7 @@ fn replay(path: &str) -> ! {
     let s = std::fs::read_to_string(path).unwrap_or_else(|e| crate::explore::machinery_failure(&format!("{path}: {e}")));
     let v: serde_json::Value = serde_json::from_str(&s).unwrap();
     let g = |k: &str| v[k].as_u64().unwrap_or(1);
-    let c = Case { w: g("w") as usize, h: g("h") as usize, layout: g("layout") as u32, depth: g("depth") as u32, orientation: g("orientation") as u32 };
+    let c = Case { w: g("w") as usize, h: g("h") as usize, layout: g("layout") as u32, depth: g("depth") as u32, orientation: g("orientation") as u32, range: v["range"].as_u64().unwrap_or(0) as u32 };
     match run(&c) {
         Ok(_) => {
             println!("replay: property holds on this case");
